@@ -5,13 +5,15 @@
 (* Implementation-shaped model of internal/governance for ONE token on an  *)
 (* integer clock:                                                          *)
 (*   slidingWindowCounter (sliding_window.go): ring of R = N + Extra slots *)
-(*     of D clock units (the code has Extra = 0: the ring is exactly the   *)
-(*     window, W = N*D); advance() truncates now to the slot, rotates      *)
+(*     of D clock units (Extra = 1 since arc 5869152: one slot more than   *)
+(*     the window W = N*D needs; Extra = 0, the code before that commit,   *)
+(*     is the negative control); advance() truncates to the slot, rotates  *)
 (*     floor(elapsed/D) slots clearing them (or wipes the ring when that   *)
 (*     is >= R); Allow() rejects when limit > 0 /\ total >= limit, else    *)
 (*     counts the request in the current slot.                             *)
 (*   quotaTracker (quota_tracker.go): hour/day counters, reset when        *)
-(*     now.After(resetAt) -- strictly after -- to the next boundary.       *)
+(*     !now.Before(resetAt) (ResetAtBoundary = TRUE since 5869152; FALSE = *)
+(*     now.After(resetAt), strictly after, is the negative control).       *)
 (*   Manager.CheckRateLimit then Manager.CheckQuota (api/query.go order):  *)
 (*     a rate-limited request never reaches the quota tracker; a request   *)
 (*     refused by the quota has already been counted by the limiter.       *)
@@ -24,8 +26,8 @@
 EXTENDS Integers, Sequences, FiniteSets, TLC, Json
 
 CONSTANTS N,          \* slots per window (60)
-          Extra,      \* additional ring slots (0 as written)
-          ResetAtBoundary, \* FALSE as written: counters reset when now.After(resetAt); TRUE: when !now.Before(resetAt)
+          Extra,      \* additional ring slots (1 in the code; 0 = negative control)
+          ResetAtBoundary, \* TRUE in the code: counters reset when !now.Before(resetAt); FALSE: when now.After(resetAt)
           D,          \* clock units per slot
           HourU, DayU,\* clock units per clock hour / UTC day
           Times,      \* instants the clock may visit
